@@ -80,16 +80,31 @@ def run(ctx, idx):
     ctx.ob("C16.b", "%s::name" % fi.key, utils.rel, ctor.lineno, ok, "name = EEMS_COMMANDS.get(old, old)" if ok else "the converted command name is `%s`, not EEMS_COMMANDS.get(node.command, node.command)" % K.src(e))
     # result name
     e = args.get("result_name")
+    if not (isinstance(e, ast.BoolOp) and isinstance(e.op, ast.Or)) and raw_args.get("result_name") is not None:
+        e = K.flow_expand(fi, raw_args["result_name"], ctor)
     order = []
+
+    def flat_or(x):
+        if isinstance(x, ast.BoolOp) and isinstance(x.op, ast.Or):
+            for v_ in x.values:
+                for y in flat_or(v_):
+                    yield y
+        else:
+            yield x
+
     if isinstance(e, ast.BoolOp) and isinstance(e.op, ast.Or):
-        for v in e.values:
+        for v in flat_or(e):
             order.append("own" if is_node_attr(v, "result_name") else find_arg(v))
     ok = order == ["own", "NewFieldName", "InFieldName"]
+    if not ok and not order:
+        # not an `a or b or c` chain (e.g. a loop over the candidate argument names): the order of the sources is not
+        # something this rule can read off - no verdict rather than a guess
+        raise AnalysisError("C16.b: the result name of a converted command is computed by `%s`, which is outside the recognised forms (own name or NewFieldName or InFieldName as one expression)" % K.src(e)[:60])
     ctx.ob("C16.b", "%s::result-name" % fi.key, utils.rel, ctor.lineno, ok,
            "result name = own or NewFieldName or InFieldName" if ok else "result name sources are %s, expected own result name, then NewFieldName, then InFieldName" % (order or K.src(e)))
     # the name comes from an argument *value*, which the parser delivers as any kind (list, number, boolean, nothing):
     # it must be checked to be a name before it is used as one
-    name_expr = K.src(K.expand(fi, raw_args.get("result_name"))) if raw_args.get("result_name") is not None else None
+    name_expr = K.src(K.flow_expand(fi, raw_args.get("result_name"), ctor)) if raw_args.get("result_name") is not None else None
     checked = False
     for n in own_nodes(fi.node):
         if not isinstance(n, ast.If):
@@ -100,7 +115,7 @@ def run(ctx, idx):
             neg = not neg
             t = t.operand
         if isinstance(t, ast.Call) and isinstance(t.func, ast.Name) and t.func.id == "isinstance" and len(t.args) == 2 and ("string_types" in K.src(t.args[1]) or K.src(t.args[1]) in ("str", "(str,)", "six.text_type")):
-            if K.src(K.expand(fi, t.args[0])) == name_expr:
+            if K.src(K.flow_expand(fi, t.args[0], t)) == name_expr:
                 branch = n.body if neg else n.orelse
                 if any(isinstance(x, ast.Raise) for st in branch for x in ast.walk(st)):
                     checked = True
@@ -174,7 +189,7 @@ def run(ctx, idx):
         absent = set()
         conj = guard.values if isinstance(guard, ast.BoolOp) and isinstance(guard.op, ast.And) else [guard]
         for t in conj:
-            t = K.expand(fi, t)
+            t = K.flow_expand(fi, t, rz)
             inner = None
             if isinstance(t, ast.UnaryOp) and isinstance(t.op, ast.Not):
                 inner = t.operand
@@ -189,7 +204,7 @@ def run(ctx, idx):
             elif find_arg(inner):
                 absent.add(find_arg(inner))
             elif isinstance(inner, ast.BoolOp) and isinstance(inner.op, ast.Or):
-                for v in inner.values:
+                for v in flat_or(inner):
                     if is_node_attr(v, "result_name"):
                         absent.add("own result name")
                     elif find_arg(v):
@@ -204,7 +219,12 @@ def run(ctx, idx):
     # find_argument returns the value of the named argument
     fa = next((g for g in K.helper_closure(idx, fi) if g is not fi and "find_argument" in g.name), None)
     if fa is not None:
-        rets = [n for n in own_nodes(fa.node) if isinstance(n, ast.Return) and not (n.value is None or isinstance(n.value, ast.Constant) and n.value.value is None)]
+        none_params = set()
+        a_ = fa.node.args
+        for p_, d_ in zip(a_.args[len(a_.args) - len(a_.defaults):], a_.defaults):
+            if isinstance(d_, ast.Constant) and d_.value is None:
+                none_params.add(p_.arg)
+        rets = [n for n in own_nodes(fa.node) if isinstance(n, ast.Return) and not (n.value is None or isinstance(n.value, ast.Constant) and n.value.value is None or (isinstance(n.value, ast.Name) and n.value.id in none_params))]
         ok = len(rets) == 1 and K.src(rets[0].value).endswith(".value.value")
         tests = [n for n in own_nodes(fa.node) if isinstance(n, ast.If)]
         ok = ok and len(tests) == 1 and isinstance(tests[0].test, ast.Compare) and isinstance(tests[0].test.ops[0], ast.Eq) and K.src(tests[0].test.left).endswith(".name")
